@@ -294,7 +294,7 @@ def run_shard(ctx):
         ctx.stats.case(key=('s', t, acc), nontrivial=nt,
                        classes=['single-letters'] + (['single:messages'] if k else []),
                        sample={'text': t, 'accept': acc, 'messages': k})
-    hyp_run(ctx, st.tuples(sl_text, sl_acc), single, ctx.n(50000, 1000000))
+    hyp_run(ctx, st.tuples(sl_text, sl_acc), single, ctx.n(50000, 500000))
 
     def equation(args):
         lang, mode, data = args
@@ -305,7 +305,7 @@ def run_shard(ctx):
                        sample={'text': t, 'mode': mode, 'lang': lang, 'messages': k})
     hyp_run(ctx, st.tuples(st.sampled_from(['en', 'en', 'ru']),
                            st.sampled_from(['displayed', 'inline', 'all', 'd', 'disp', 'i', 'a', 'inl']), st.data()),
-            equation, ctx.n(50000, 1000000), seed=ctx.shard_seed + 500)
+            equation, ctx.n(50000, 500000), seed=ctx.shard_seed + 500)
 
     try:
         from props import c20_shell
